@@ -126,6 +126,9 @@ def run(ctx, monitors):
             {"cfg": "MC_SyncClient_follow_live.cfg", "expect_ok": False},
             {"cfg": "MC_SyncClient_repair_live.cfg", "expect_ok": False},
             {"cfg": "MC_SyncClient_repair_abort.cfg", "expect_ok": False},
+            # sensitivity: PinsOperatorHash = FALSE (the follower trusts the hash field of a peer's chain-info packet);
+            # TLC's counterexample (a LyingInfo peer gets its key pinned) is replayed on the real StartFollowChain
+            {"cfg": "MC_SyncClient_follow_peerhash.cfg", "expect_ok": False},
             {"cfg": "MC_SyncClient_run_big.cfg", "timeout": 1500, "workers": 8},
             {"cfg": "MC_SyncClient_race_big.cfg", "timeout": 1500, "workers": 8},
             {"cfg": "MC_SyncClient_follow_chained_big.cfg", "timeout": 900},
